@@ -63,10 +63,12 @@ fn scenario_x(name: &'static str, n: usize, rounds: usize, menu: Vec<PushAnswer>
         must!(cx, "setup:create-topic", { let a = a.clone(); async move { a.create_topic(T0).await } });
         must!(cx, "setup:create-push-sub", { let a = a.clone(); async move { a.create_sub(S0, T0, 10, Some(ENDPOINT)).await } });
         must!(cx, "setup:create-pull-sub", { let a = a.clone(); async move { a.create_sub(S1, T0, 10, None).await } });
-        let payloads: Vec<Vec<u8>> = (0..n).map(|i| format!("message-{}", i).into_bytes()).collect();
+        let mut payloads: Vec<Vec<u8>> = (0..n).map(|i| format!("message-{}", i).into_bytes()).collect();
         let attrs = vec![("k".to_string(), "v".to_string())];
         let msgs: Vec<Msg> = payloads.iter().map(|p| (p.clone(), attrs.clone())).collect();
-        let ids = must!(cx, "setup:publish", { let a = a.clone(); async move { a.publish(T0, msgs).await } });
+        let mut ids = must!(cx, "setup:publish", { let a = a.clone(); async move { a.publish(T0, msgs).await } });
+        let mut n_msgs = n;
+        let mut recreated_at: Option<(i64, usize)> = None;
         let mut seen: Vec<Seen> = vec![];
         let mut consumed = 0;
         let mut deleted_at: Option<i64> = None;
@@ -124,6 +126,11 @@ fn scenario_x(name: &'static str, n: usize, rounds: usize, menu: Vec<PushAnswer>
                         }
                     }
                 }
+                if let Some((t, first_new)) = recreated_at {
+                    if k < first_new && att.at_ms > t {
+                        return ScenarioOut::viol("push/after-delete", format!("{}: message {} of the deleted incarnation was POSTed at {} ms, after the subscription was deleted at {} ms", name, k, att.at_ms, t));
+                    }
+                }
                 if this_round.contains(&k) {
                     return ScenarioOut::viol("push/twice-in-one-round", format!("{}: message {} POSTed twice in round {}", name, k, round));
                 }
@@ -133,9 +140,15 @@ fn scenario_x(name: &'static str, n: usize, rounds: usize, menu: Vec<PushAnswer>
             }
             // every message that is not accepted, not in flight and whose subscription lives must have been POSTed in this round
             if deleted_at.is_none() {
-                for k in 0..n {
+                for k in 0..n_msgs {
                     if this_round.contains(&k) {
                         continue;
+                    }
+                    // messages of the deleted incarnation are not owed any more
+                    if let Some((_, first_new)) = recreated_at {
+                        if k < first_new {
+                            continue;
+                        }
                     }
                     let prior: Vec<&Seen> = seen.iter().filter(|s| s.msg == k).collect();
                     let mut due = prior.is_empty();
@@ -165,7 +178,7 @@ fn scenario_x(name: &'static str, n: usize, rounds: usize, menu: Vec<PushAnswer>
             }
             // unrelated, and rejected, requests between rounds must not disturb the push subscription
             if interfere && round == 0 {
-                let which = cx.choose("interference", 5);
+                let which = cx.choose("interference", 7);
                 let a2 = a.clone();
                 let r = tryv!(cx.settle("client:interference", async move {
                     match which {
@@ -173,12 +186,31 @@ fn scenario_x(name: &'static str, n: usize, rounds: usize, menu: Vec<PushAnswer>
                         1 => res(&a2.create_sub(S0, T0, 10, None).await),
                         2 => res(&a2.create_sub(S0, T0, 10, Some("http://other.example/")).await),
                         3 => res(&a2.create_sub(S2, T0, 10, None).await),
-                        _ => res(&a2.get_sub(S0).await),
+                        4 => res(&a2.get_sub(S0).await),
+                        5 => {
+                            // the push subscription is deleted and created again under the same name within one push interval
+                            let d = a2.delete_sub(S0).await;
+                            let c = a2.create_sub(S0, T0, 10, Some(ENDPOINT)).await;
+                            format!("{}+{}", res(&d), res(&c))
+                        }
+                        _ => res(&a2.delete_topic(T0).await),
                     }
                 }).await);
                 history.push(format!("interference{}:{}", which, r));
                 if (which == 1 || which == 2) && r != "AlreadyExists" {
                     return ScenarioOut::viol("push/duplicate-create-not-rejected", format!("{}: CreateSubscription of the existing push subscription returned {}", name, r));
+                }
+                if which == 5 {
+                    // a new incarnation: what the old one held is gone with it; a message published now must be pushed
+                    if r != "OK+OK" {
+                        return ScenarioOut::viol("push/recreate-failed", format!("{}: delete + re-create returned {}", name, r));
+                    }
+                    let a3 = a.clone();
+                    let newid = must!(cx, "client:publish-new", async move { a3.publish(T0, vec![(b"message-after-recreate".to_vec(), vec![("k".to_string(), "v".to_string())])]).await });
+                    recreated_at = Some((cx.now_ms(), ids.len()));
+                    ids.extend(newid);
+                    payloads.push(b"message-after-recreate".to_vec());
+                    n_msgs += 1;
                 }
             }
             if delete_after == Some(round) {
@@ -189,11 +221,11 @@ fn scenario_x(name: &'static str, n: usize, rounds: usize, menu: Vec<PushAnswer>
         // the pull-only subscription was never pushed (every request named S0) and still holds its copies
         let st = tryv!(cx.stats(S1).await);
         match st {
-            Some(s) if s.backlog == n && s.outstanding == 0 => {}
-            other => return ScenarioOut::viol("push/pull-subscription-touched", format!("{}: the pull-only subscription has {:?}, expected backlog {}", name, other, n)),
+            Some(s) if s.backlog == n_msgs && s.outstanding == 0 => {}
+            other => return ScenarioOut::viol("push/pull-subscription-touched", format!("{}: the pull-only subscription has {:?}, expected backlog {}", name, other, n_msgs)),
         }
         // accepted messages are gone from the push subscription, everything else is still held by it
-        if deleted_at.is_none() {
+        if deleted_at.is_none() && recreated_at.is_none() {
             let acc = (0..n).filter(|k| seen.iter().any(|s| s.msg == *k && match &s.answer { PushAnswer::Status(st) => accepted(*st), PushAnswer::Delay(ms, st) => accepted(*st) && (*ms as i64) < 10_000 && s.at_ms + (*ms as i64) <= cx.now_ms(), _ => false })).count();
             let st = tryv!(cx.stats(S0).await).unwrap();
             if st.backlog + st.outstanding != n - acc {
@@ -234,6 +266,12 @@ fn status_sweep() -> Unit {
         ScenarioOut { sample: Some(format!("status {}", status)), ..ScenarioOut::ok(if accepted(status) { "accepted" } else { "retried" }) }
     });
     explore_unit("fault/status-sweep", "one attempt answered with every status 100..599: exactly {102,200,201,202,204} end the retries", Bounds::new(0), ExecCfg { points_on: false, push_interval_ms: Some(1000), ..Default::default() }, f)
+}
+
+pub fn interference_unit() -> Unit {
+    use PushAnswer::*;
+    let cfg = ExecCfg { push_interval_ms: Some(1000), ..Default::default() };
+    explore_unit("fault/interference", "2 messages failing in the first round; between the rounds: a rejected duplicate CreateSubscription of the push subscription (with / without endpoint), an unrelated create, a get, delete + re-create of the push subscription, DeleteTopic: the retries go on regardless (for the new incarnation: its own messages)", Bounds::new(0), cfg, scenario_x("interference", 2, 3, vec![Status(500), Status(200)], None, true, true))
 }
 
 pub fn units(thorough: bool) -> Vec<Unit> {
